@@ -385,8 +385,12 @@ def gen_deflist(rng):
     return src, [('def_list', {})], out
 
 
+FN_LABELS = ['1', '2', 'a', 'note', 'x-y', 'é', 'A b', 'fn1', 'fnref', 'boiling-fn', 'a:fn', 'fn:2', 'x:y']
+
+
 def gen_footnotes(rng):
-    ids = rng.sample(['1', '2', 'a', 'note', 'x-y', 'é', 'A b'], rng.randint(1, 3))
+    # labels: also ones that contain the id prefixes `fn` / `fnref` or the separator `:` (the ids are fn:LABEL, fnref:LABEL, fnrefK:LABEL)
+    ids = rng.sample(FN_LABELS, rng.randint(1, 3))
     order = list(ids); rng.shuffle(order)          # definition order decides the numbering
     num = {i: k + 1 for k, i in enumerate(order)}
     paras = []; html = []; count = {i: 0 for i in ids}; refdefs = []
@@ -843,6 +847,9 @@ def search(driver, rng, n):
         except Exception as e:       # documented syntax must render; nothing raises on the unchanged tree
             viol.append(_viol('render', src, exts, 'conversion raised %s: %s' % (type(e).__name__, e), want, {'extension': name})); continue
         bump('render_' + name)
+        if name == 'footnotes':
+            labs = re.findall(r'(?<!\\)\[\^([^\]\n]*)\](?!:)', src)
+            if any('fn' in x and labs.count(x) > 1 for x in labs): bump('render_footnotes_label_containing_fn_referenced_repeatedly')
         if len(exts) > 1: bump('render_with_riders')
         if _RE_REFDEF.search(src): bump('render_with_core_reference_neighbours')
         if _RE_BRACKETS.search(src): bump('render_with_bracket_adjacency')
